@@ -75,6 +75,19 @@ type simPool struct {
 	owner map[uintptr]int // buffers handed out by the pool -> task
 }
 
+// bufName gives pooled buffers run-local ordinal names so that messages do not
+// contain addresses (a replay must reproduce the message exactly).
+var bufSeq = map[uintptr]int{}
+
+func bufName(id uintptr) string {
+	n, ok := bufSeq[id]
+	if !ok {
+		n = len(bufSeq) + 1
+		bufSeq[id] = n
+	}
+	return fmt.Sprintf("#%d", n)
+}
+
 var (
 	pcfg   PoolCfg
 	pstats PoolStats
@@ -97,6 +110,7 @@ func poolReset(c *PoolCfg) {
 	pstats = PoolStats{}
 	pools = map[*sync.Pool]*simPool{}
 	plist = nil
+	bufSeq = map[uintptr]int{}
 	getIdx, putIdx, held = 0, 0, 0
 }
 
@@ -228,7 +242,7 @@ func PoolGet(p *sync.Pool) interface{} {
 	pstats.Verified++
 	pstats.WordsVerified += len(w)
 	if len(w) != fb.n || sumWords(w) != fb.sum {
-		poolViolate(fmt.Sprintf("pooled buffer %#x (put by task %d) was written after it was put back (detected when handed out by Get #%d)", fb.id, fb.putBy, idx))
+		poolViolate(fmt.Sprintf("pooled buffer %s (put by task %d) was written after it was put back (detected when handed out by Get #%d)", bufName(fb.id), fb.putBy, idx))
 	}
 	if fb.putBy != tid {
 		pstats.CrossTask++
@@ -265,12 +279,12 @@ func PoolPut(p *sync.Pool, v interface{}) {
 	id, w := PoolView(v)
 	for _, fb := range sp.free {
 		if fb.id == id {
-			poolViolate(fmt.Sprintf("pooled buffer %#x put twice (Put #%d by task %d, already free since a put by task %d)", id, idx, tid, fb.putBy))
+			poolViolate(fmt.Sprintf("pooled buffer %s put twice (Put #%d by task %d, already free since a put by task %d)", bufName(id), idx, tid, fb.putBy))
 		}
 	}
 	if own, ok := sp.owner[id]; ok {
 		if own != tid {
-			poolViolate(fmt.Sprintf("pooled buffer %#x obtained by task %d was put back by task %d", id, own, tid))
+			poolViolate(fmt.Sprintf("pooled buffer %s obtained by task %d was put back by task %d", bufName(id), own, tid))
 		}
 		delete(sp.owner, id)
 	}
@@ -292,7 +306,7 @@ func (sp *simPool) verify(where string) string {
 		_, w := PoolView(fb.v)
 		pstats.WordsVerified += len(w)
 		if len(w) != fb.n || sumWords(w) != fb.sum {
-			return fmt.Sprintf("pooled buffer %#x (put by task %d) was written after it was put back (detected at %s)", fb.id, fb.putBy, where)
+			return fmt.Sprintf("pooled buffer %s (put by task %d) was written after it was put back (detected at %s)", bufName(fb.id), fb.putBy, where)
 		}
 	}
 	return ""
